@@ -836,6 +836,10 @@ def apply_op(W, op, misuse=None, light=False):
     post = W.snapshot()
     n0 = len(preU)
     if misuse is not None:
+        if misuse == "append" and exc is None:
+            # append / extend attach like add does (since fix 4f369f2 / F45 they also set the parent): an object that had
+            # been taken out before and is a child again is no longer 'taken out'
+            sync_taken(W, pre, post, n0)
         bad = wf_violations(W)
         if bad:
             report(MISUSE_ID[misuse] + ("." + op[0] if misuse == "F1" else ""),
